@@ -24,14 +24,14 @@
 enum { K_PUSH, K_PUSH_TEXT, K_POP_API, K_POP_SYST, K_POP_EMPTY, K_CLEAR, K_OVERFLOW, K_OVERFLOW_TEXT, K_OVERFLOW_POPPED,
        K_INTACT_API, K_INTACT_SYST, K_DROPPED, K_DROPPED_TOO_BIG, K_NOTEXT_OK, K_TWO_PARTS, K_REUSE_ANY, K_REUSE_FULL, K_REUSE_FULL_INTACT,
        K_EMPTY_TEXT, K_AUTOCUT_255, K_AUTOCUT_FULL, K_SYST_LIMITED, K_MODE_EXPL, K_MODE_AUTO, K_MODE_NULSHORT,
-       K_HIST, K_WRAP, K_GUARD_CHECKS, K_CLEAR_TEXT, K_CLIENT_KEEPS, K__N };
+       K_HIST, K_WRAP, K_GUARD_CHECKS, K_CLEAR_TEXT, K_CLIENT_KEEPS, K_ADJACENT, K__N };
 static const char * const kname[K__N] = { "op.push", "op.push_text", "op.errorpop", "op.syst_err", "op.pop_on_empty", "op.clear",
     "overflow.events", "overflow.dropped_text", "overflow.marker_popped",
     "text.returned_intact_errorpop", "text.returned_intact_syst_err", "text.dropped", "text.dropped_larger_than_heap", "text.absent_as_expected", "text.returned_in_two_parts",
     "reuse.text_pushed_on_empty_queue", "reuse.full_heap_text_pushed", "reuse.full_heap_text_intact",
     "text.empty_pushed", "text.auto_length_cut_255", "text.auto_length_full", "syst_err.over_255_prefix_only",
     "push.explicit_len", "push.automatic_len", "push.explicit_len_beyond_nul",
-    "history.runs", "history.ring_wraparound", "heap.guard_checks", "clear.dropped_text", "errorpop.text_kept_by_the_application_for_good" };
+    "history.runs", "history.ring_wraparound", "heap.guard_checks", "clear.dropped_text", "errorpop.text_kept_by_the_application_for_good", "push.text_buffer_adjacent_to_the_heap" };
 static uint64_t kval[K__N];
 static uint64_t evals_local;
 #define CNT(k) (kval[k]++)
@@ -67,7 +67,10 @@ typedef struct {
     int client_holds; /* the application took a text with SCPI_ErrorPop and keeps it: that part of the heap is not the queue's any more */
     uint64_t tag;
 } hist_t;
-static int g_client_keeps; /* this history: texts taken through SCPI_ErrorPop are never given back (the public API has no call for it) */
+static int g_client_keeps;
+/* the application's text buffer is the heap's immediate neighbour in memory (members of one struct, consecutive statics, one carved-up arena):
+ * this history passes its texts from the bytes right behind the heap */
+static char * g_adjacent_src; static size_t g_adjacent_cap; /* this history: texts taken through SCPI_ErrorPop are never given back (the public API has no call for it) */
 
 static const scpi_command_t cmds[] = {
     { .pattern = "SYSTem:ERRor[:NEXT]?", .callback = SCPI_SystemErrorNextQ },
@@ -127,6 +130,7 @@ static void do_push(hist_t * h, const op_t * o) {
                 if (o->len > 255) { in.flags |= F_AUTOCUT; eff = 255; }
                 break;
         }
+        if (g_adjacent_src && src && srcsize <= g_adjacent_cap) { memcpy(g_adjacent_src, src, srcsize); memset(src, '%', srcsize); free(src); src = g_adjacent_src; srcsize = 0; CNT(K_ADJACENT); }
         if (o->len == 0) { in.flags |= F_EMPTY; CNT(K_EMPTY_TEXT); }
         /* "heap space is completely reusable once the queue is empty" */
         if (rq_count(&h->q) == 0 && eff >= 1 && eff + 1 <= h->H && !h->client_holds) {
@@ -138,7 +142,8 @@ static void do_push(hist_t * h, const op_t * o) {
     vh_ctx_clear_capture(h->v);
     if (o->kind == OP_PUSH) SCPI_ErrorPush(h->ctx, in.code);
     else SCPI_ErrorPushEx(h->ctx, in.code, src, info_len);
-    if (src) { memset(src, '%', srcsize); free(src); }
+    if (src && src != g_adjacent_src) { memset(src, '%', srcsize); free(src); }
+    if (src && src == g_adjacent_src) memset(g_adjacent_src, '%', g_adjacent_cap);
     if (!rq_push(&h->q, &in, dropped, &nd)) {
         CNT(K_OVERFLOW);
         for (i = 0; i < nd; i++) if (dropped[i].has_text && !(dropped[i].flags & F_EMPTY)) CNT(K_OVERFLOW_TEXT);
@@ -248,9 +253,9 @@ static void do_clear(hist_t * h) {
 
 #define HGUARD 32
 #define QGUARD 2
-typedef struct { vh_ctx_t * v; int N; size_t H; char * heap; char * hblock; scpi_error_t * qmem; scpi_error_t * qblock; } rig_t;
+typedef struct { vh_ctx_t * v; int N; size_t H; char * heap; char * hblock; scpi_error_t * qmem; scpi_error_t * qblock; int adjacent; } rig_t;
 static void rig_open(rig_t * r, int N, size_t H) {
-    r->N = N; r->H = H;
+    r->N = N; r->H = H; r->adjacent = 0;
     r->v = vh_ctx_new(cmds, 64, N, H);
     r->v->log_enabled = 0;
 #if VH_ASAN
@@ -266,7 +271,8 @@ static int rig_guards_ok(const rig_t * r, const char ** what) {
 #if !VH_ASAN
     size_t i; const unsigned char * a = (const unsigned char *) r->hblock, * b = (const unsigned char *) r->heap + r->H;
     const unsigned char * c = (const unsigned char *) r->qblock, * d = (const unsigned char *) (r->qmem + r->N);
-    for (i = 0; i < HGUARD; i++) { if (a[i] != 0xA5) { *what = "before the heap"; return 0; } if (b[i] != 0xA5) { *what = "after the heap"; return 0; } }
+    if (r->adjacent) a = (const unsigned char *) r->heap - HGUARD;
+    for (i = 0; i < HGUARD; i++) { if (a[i] != 0xA5) { *what = "before the heap"; return 0; } if (!r->adjacent && b[i] != 0xA5) { *what = "after the heap"; return 0; } }
     for (i = 0; i < sizeof(scpi_error_t) * QGUARD; i++) if (c[i] != 0xE7 || d[i] != 0xE7) { *what = "around the queue array"; return 0; }
 #else
     (void) r; (void) what;
@@ -451,6 +457,16 @@ static void p2_run(uint64_t idx, vh_rng_t * rng) {
     vh_watchdog(vh_args.thorough ? 60 : 10);
     rig_open(&rig, N, H);
     g_client_keeps = (idx % 4 == 3);
+    if (idx % 4 == 2) {
+        /* heap and text buffer in ONE block, nothing in between; the guard behind the heap is given up for this history */
+        char * blk = (char *) malloc(HGUARD + H + 1400), * saveh = rig.heap, * saveb = rig.hblock;
+        memset(blk, 0xA5, HGUARD + H + 1400);
+        rig.heap = blk + HGUARD; g_adjacent_src = rig.heap + H; g_adjacent_cap = 1400; rig.adjacent = 1;
+        run_history(&rig, ops, nops);
+        g_adjacent_src = NULL; rig.adjacent = 0; rig.heap = saveh; rig.hblock = saveb;
+        SCPI_InitHeap(rig.v->ctx, rig.v->heap, rig.v->heap_len);
+        free(blk);
+    } else
     run_history(&rig, ops, nops);
     g_client_keeps = 0;
     rig_close(&rig);
@@ -467,7 +483,7 @@ int main(int argc, char ** argv) {
         { "random", p2_count, p2_run },
     };
     runs_init();
-    vh_require("errorpop.text_kept_by_the_application_for_good"); vh_require("overflow.events");
+    vh_require("errorpop.text_kept_by_the_application_for_good"); vh_require("push.text_buffer_adjacent_to_the_heap"); vh_require("overflow.events");
     vh_require("overflow.dropped_text");
     vh_require("overflow.marker_popped");
     vh_require("history.ring_wraparound");
